@@ -1273,6 +1273,8 @@ class Concatenate(CanBehaveLikeAVariable[T]):
             yield sources
             return
         all_values = defaultdict(list)
+        # The concatenated value exists (as an empty list) even when there is nothing to concatenate.
+        all_values[self._id_] = []
         for child_v in self._child_._evaluate__(sources):
             child_v = copy(child_v)
             for id_, val in child_v.items():
